@@ -113,13 +113,15 @@ pub fn script_gift(t: u32, k: usize, serial: Option<Arc<Mutex<()>>>, rendezvous:
             g.insert_at(1, It { val: 9001, size: 1 });
             *slot.lock().unwrap_or_else(|e| e.into_inner()) = Some(g);
         } else if t == 2 {
-            loop {
+            // bounded wait: if thread 1 never delivers (it panicked, say) this thread must not spin forever
+            for _ in 0..200_000 {
                 if let Some(g) = slot.lock().unwrap_or_else(|e| e.into_inner()).take() {
                     moved_in = Some(g);
                     break;
                 }
                 thread::yield_now();
             }
+            assert!(moved_in.is_some(), "the treap that thread 1 was to create and hand over never arrived");
         }
     }
     let mut tr: Treap<It> = Treap::new();
@@ -134,7 +136,11 @@ pub fn script_gift(t: u32, k: usize, serial: Option<Arc<Mutex<()>>>, rendezvous:
         if i == 0 {
             if let Some((counter, n)) = &rendezvous {
                 *counter.lock().unwrap_or_else(|e| e.into_inner()) += 1;
-                while *counter.lock().unwrap_or_else(|e| e.into_inner()) < *n {
+                // bounded: a thread that panicked before its first creation never arrives
+                for _ in 0..200_000 {
+                    if *counter.lock().unwrap_or_else(|e| e.into_inner()) >= *n {
+                        break;
+                    }
                     thread::yield_now();
                 }
             }
@@ -161,6 +167,16 @@ pub fn script_gift(t: u32, k: usize, serial: Option<Arc<Mutex<()>>>, rendezvous:
     let mut tr = op!(Treap::merge(b, a));
     thread::yield_now();
     let removed = op!(tr.remove_at(0)).val;
+    // churn: the first element is taken out and put back a few times, so that whatever the library keeps
+    // across remove / insert pairs (recycled allocations, caches) is exercised by all threads at once
+    if tr.size() > 0 {
+        for _ in 0..3 {
+            let it = op!(tr.remove_at(0));
+            thread::yield_now();
+            op!(tr.insert_at(0, it));
+            thread::yield_now();
+        }
+    }
     let size = tr.size();
     let first = tr.first().map_or(u32::MAX, |x| x.val);
     let last = tr.last().map_or(u32::MAX, |x| x.val);
